@@ -224,6 +224,8 @@ def judge(plan, tr: P.Trace):
         probes["nonce_with_structure_magic"] = 1
     if plan.get("family") == "same-prime":
         probes["two_groups_same_prime"] = 1
+    if plan.get("ecdh_padded"):
+        probes["ecdh_key_blob_padded"] = 1
     if plan.get("family") == "moving-clock":
         probes["moving_clock_plans"] = 1
         for prot in prots:
@@ -329,7 +331,7 @@ class C03(common.Check):
     components = {"client": "real (new_kek / get_kek / compute_kek / compute_public_key through the public API)", "entropy": "simulated, scripted draws",
                   "DC": "model (RefDC, public-key and seed replies)", "independent implementation": "ref.gkdi + ref.ec (own P-256/P-384 arithmetic, pow() DH, hashlib KDFs)"}
     assumptions = ["reference calibrated on the 16 Windows blobs (gate before every run)", "hash x algorithm sweep is workload parameterisation"]
-    required_fired = ("two_sids_same_position", "key_length_wider_than_modulus", "lz_shared_secret", "lz_public_value", "lz_coord_x", "lz_coord_y", "lz_nonce", "agree_DH_pub", "agree_ECDH_P256_pub", "agree_ECDH_P384_pub", "agree_DH_nonce", "thread_plans", "thread_overlap", "nonce_with_structure_magic", "two_groups_same_prime", "many_sids_one_position", "pure_thread_cases", "moving_clock_plans", "boundary_passed_before_key_id", "key_blob_wider_than_group_params")
+    required_fired = ("two_sids_same_position", "key_length_wider_than_modulus", "lz_shared_secret", "lz_public_value", "lz_coord_x", "lz_coord_y", "lz_nonce", "agree_DH_pub", "agree_ECDH_P256_pub", "agree_ECDH_P384_pub", "agree_DH_nonce", "thread_plans", "thread_overlap", "nonce_with_structure_magic", "two_groups_same_prime", "many_sids_one_position", "pure_thread_cases", "moving_clock_plans", "boundary_passed_before_key_id", "key_blob_wider_than_group_params", "ecdh_key_blob_padded")
 
     def cases(self, tier, seed):
         rng = prng.stream(seed, "C03")
@@ -379,6 +381,10 @@ class C03(common.Check):
             out.append(base_plan(spec, rng.getrandbits(31), rng.choice(("pub", "pub", "nonce")), rng.choice(("sync", "async")), rng.choice(("sync", "async"))))
             if spec[2] == "DH" and out[-1]["mode"] == "pub" and i % 2:
                 out[-1]["dc"] = {"byz": {"dh_pub_key_length": 256 + rng.choice((1, 4, 8, 256))}}
+            elif spec[2] != "DH" and out[-1]["mode"] == "pub" and i % 2:
+                # ... and elliptic-curve group public keys whose coordinates are padded wider than the curve needs
+                out[-1]["dc"] = {"byz": {"ecdh_pub_pad": rng.choice((1, 4, 8, 16))}}
+                out[-1]["ecdh_padded"] = True
         for k in range(400 if tier == "quick" else 20000):
             out.append(clock_plan([60, offline.HASHES[k % 4], offline.SECRETS[(k // 4) % 3]], rng.getrandbits(31), k))
         return out
